@@ -177,5 +177,9 @@ theorem lo64_unpacklo (a b : BitVec 128) : lo64 (unpacklo_epi64 a b) = lo64 a :=
 theorem hi64_unpacklo (a b : BitVec 128) : hi64 (unpacklo_epi64 a b) = lo64 b := by simp only [unpacklo_epi64, hi64_mk]
 theorem lo64_zero : lo64 (0 : BitVec 128) = 0 := by decide
 theorem hi64_zero : hi64 (0 : BitVec 128) = 0 := by decide
+theorem lane32_set1 (x : BitVec 32) (k : Nat) (hk : k < 4) : lane32 (set1_epi32 x) k = x := by
+  have := mk32_lanes (set1_epi32 x)
+  interval_cases k <;> (unfold set1_epi32 lane32 mk32; bv_lsb)
+
 end X86
 end HH
